@@ -181,6 +181,34 @@ func runC19(c *ctx) error {
 			}
 		}
 	}
+	// a second shared pipeline with the shapes observers are tempted to tidy up: a step env that shadows a pipeline
+	// variable, plugins whose configs are present but empty, an empty non-nil matrix
+	litPipe, _ := pipeline.Parse(strings.NewReader("steps:\n  - command: a\n    env: {DEPLOY: shadow, OWN: x}\n    plugins:\n      - ecr#v2.7.0: {}\n      - docker#v5.0.0: []\n      - cache#v1: ~\n  - command: b\n    matrix: {}\n  - group: g\n    steps:\n      - command: c\n        plugins: [{x#v1: {}}]\n"))
+	if litPipe == nil {
+		return fmt.Errorf("literal shared pipeline does not parse")
+	}
+	// what signing, verifying and marshalling only look at: plugin configs as Go values, matrix pointers, step env
+	litFrame := func() string {
+		var b strings.Builder
+		for _, cs := range commandStepsOf(litPipe.Steps) {
+			for _, pl := range cs.Plugins {
+				fmt.Fprintf(&b, "[%s=%#v]", pl.Source, pl.Config)
+			}
+			fmt.Fprintf(&b, "matrix:%v env:%v|", cs.Matrix != nil, cs.Env)
+		}
+		return b.String()
+	}
+	penvBefore := fmt.Sprint(penv)
+	litFrameBefore := litFrame()
+	if err := signature.SignSteps(context.Background(), litPipe.Steps, k.signer, "repo", signature.WithEnv(penv)); err != nil {
+		return err
+	}
+	if got := litFrame(); got != litFrameBefore {
+		c.res.Fail(core.OracleFailure{What: "SignSteps changed signed content of the steps it signed (it only adds signatures)", Input: "literal shared pipeline", Got: got, Want: litFrameBefore})
+	}
+	if fmt.Sprint(penv) != penvBefore {
+		c.res.Fail(core.OracleFailure{What: "SignSteps changed the env map the caller passed with WithEnv", Input: penvBefore, Got: fmt.Sprint(penv), Want: penvBefore})
+	}
 	_, pubSet, _ := jwkutil.NewKeyPair("shared", "EdDSA")
 	readers := func() string {
 		var b strings.Builder
@@ -204,6 +232,15 @@ func runC19(c *ctx) error {
 				b.WriteString("sign-error")
 			}
 		}
+		lj, _ := json.Marshal(litPipe)
+		ly, _ := yaml.Marshal(litPipe)
+		b.Write(lj)
+		b.Write(ly)
+		for _, cs := range commandStepsOf(litPipe.Steps) {
+			verr, _, _ := verifyStep(k, cs.Signature, cs, "repo", penv)
+			_, payload, err := signStep(k, cs, "repo", penv)
+			fmt.Fprint(&b, verr == nil, payload, err == nil)
+		}
 		kk, _ := pubSet.Key(0)
 		fmt.Fprint(&b, jwkutil.Validate(kk) == nil)
 		fmt.Fprint(&b, (&pipeline.Plugin{Source: "docker#v1"}).FullSource())
@@ -211,7 +248,14 @@ func runC19(c *ctx) error {
 	}
 	beforeMap := dumpMap(shared)
 	beforePipe := vl.Enc(dump.Pipeline(sharedPipe))
+	beforeLit := vl.Enc(dump.Pipeline(litPipe))
 	want := readers()
+	if vl.Enc(dump.Pipeline(litPipe)) != beforeLit {
+		c.res.Fail(core.OracleFailure{What: "marshalling / signing / verifying changed the observed pipeline (empty plugin configs, empty matrix, shadowing step env)", Input: "literal shared pipeline", Got: vl.Enc(dump.Pipeline(litPipe)), Want: beforeLit})
+	}
+	if fmt.Sprint(penv) != penvBefore {
+		c.res.Fail(core.OracleFailure{What: "Sign / Verify changed the env map the caller passed with WithEnv", Input: penvBefore, Got: fmt.Sprint(penv), Want: penvBefore})
+	}
 	if dumpMap(shared) != beforeMap {
 		c.res.Fail(core.OracleFailure{What: "an observer (Len/Get/Range/Equal/ToMap/MarshalJSON/MarshalYAML) changed the concrete state of the ordered map", Input: "shared map with tombstones", Got: dumpMap(shared), Want: beforeMap})
 	}
@@ -244,7 +288,7 @@ func runC19(c *ctx) error {
 		c.res.Case(fmt.Sprintf("shared-round-%d", round), true)
 		c.res.Hist("rounds.shared-read-only")
 	}
-	if dumpMap(shared) != beforeMap || vl.Enc(dump.Pipeline(sharedPipe)) != beforePipe {
+	if dumpMap(shared) != beforeMap || vl.Enc(dump.Pipeline(sharedPipe)) != beforePipe || vl.Enc(dump.Pipeline(litPipe)) != beforeLit || fmt.Sprint(penv) != penvBefore {
 		c.res.Fail(core.OracleFailure{What: "shared objects changed during read-only use", Input: "shared map / pipeline"})
 	}
 	// ---------- (c) observers leave every reached map untouched (tombstones, compaction boundary) ----------
